@@ -43,6 +43,8 @@ class Bip32Slip10DerivatorConst:
 
     # Private key prefix
     PRIV_KEY_PREFIX: bytes = b"\x00"
+    # Prefix of the HMAC data used to re-hash when a child key is not valid (SLIP-0010)
+    RETRY_PREFIX: bytes = b"\x01"
 
 
 class Bip32Slip10EcdsaDerivator(IBip32KeyDerivator):
@@ -92,13 +94,24 @@ class Bip32Slip10EcdsaDerivator(IBip32KeyDerivator):
             data_bytes = pub_key.RawCompressed().ToBytes() + index.ToBytes()
 
         # Compute HMAC halves
-        il_bytes, ir_bytes = HmacSha512.QuickDigestHalves(priv_key.ChainCode().ToBytes(),
+        chain_code_bytes = priv_key.ChainCode().ToBytes()
+        il_bytes, ir_bytes = HmacSha512.QuickDigestHalves(chain_code_bytes,
                                                           data_bytes)
+        priv_key_int = BytesUtils.ToInteger(priv_key_bytes)
 
         # Construct new key secret from iL and current private key
-        il_int = BytesUtils.ToInteger(il_bytes)
-        priv_key_int = BytesUtils.ToInteger(priv_key_bytes)
-        new_priv_key_bytes = IntegerUtils.ToBytes((il_int + priv_key_int) % curve.Order(),
+        # SLIP-0010: if iL >= n or the resulting key is zero, re-hash (0x01 || iR || index) and retry
+        while True:
+            il_int = BytesUtils.ToInteger(il_bytes)
+            new_priv_key_int = (il_int + priv_key_int) % curve.Order()
+            if il_int < curve.Order() and new_priv_key_int != 0:
+                break
+            il_bytes, ir_bytes = HmacSha512.QuickDigestHalves(
+                chain_code_bytes,
+                Bip32Slip10DerivatorConst.RETRY_PREFIX + ir_bytes + index.ToBytes()
+            )
+
+        new_priv_key_bytes = IntegerUtils.ToBytes(new_priv_key_int,
                                                   bytes_num=curve.PrivateKeyClass().Length())
 
         return new_priv_key_bytes, ir_bytes
@@ -124,14 +137,28 @@ class Bip32Slip10EcdsaDerivator(IBip32KeyDerivator):
         data_bytes = pub_key.RawCompressed().ToBytes() + index.ToBytes()
 
         # Get HMAC of data
-        il_bytes, ir_bytes = HmacSha512.QuickDigestHalves(pub_key.ChainCode().ToBytes(),
+        curve = pub_key.Curve()
+        chain_code_bytes = pub_key.ChainCode().ToBytes()
+        pub_key_point = pub_key.Point()
+        il_bytes, ir_bytes = HmacSha512.QuickDigestHalves(chain_code_bytes,
                                                           data_bytes)
-        il_int = BytesUtils.ToInteger(il_bytes)
 
         # Get a new public key point: pub_key_point + G*iL
-        new_pub_key_point = pub_key.Point() + (pub_key.Curve().Generator() * il_int)
-
-        return new_pub_key_point, ir_bytes
+        # SLIP-0010: if iL >= n or the resulting point is the point at infinity, re-hash (0x01 || iR || index) and retry
+        while True:
+            il_int = BytesUtils.ToInteger(il_bytes)
+            if il_int == 0:
+                # G*0 is the point at infinity, so the child point is the parent one
+                return pub_key_point, ir_bytes
+            if il_int < curve.Order():
+                il_point = curve.Generator() * il_int
+                # The sum is the point at infinity if and only if G*iL is the opposite of the parent point
+                if il_point.X() != pub_key_point.X() or il_point.Y() == pub_key_point.Y():
+                    return pub_key_point + il_point, ir_bytes
+            il_bytes, ir_bytes = HmacSha512.QuickDigestHalves(
+                chain_code_bytes,
+                Bip32Slip10DerivatorConst.RETRY_PREFIX + ir_bytes + index.ToBytes()
+            )
 
 
 class Bip32Slip10Ed25519Derivator(IBip32KeyDerivator):
